@@ -91,32 +91,19 @@ pub mod native {
     pub fn note(s: String) {
         NOTES.with(|f| f.borrow_mut().push(s));
     }
-    pub fn kf_active(id: &str) -> bool {
-        // VERIF_KF_OFF=1 disables every known-finding exclusion (used to confirm that a
-        // listed finding still fails); otherwise the generated list decides.
-        if std::env::var("VERIF_KF_OFF").is_ok() {
-            return false;
-        }
-        crate::verif_gen::KF_ACTIVE.iter().any(|k| *k == id)
-    }
 }
 
-#[cfg(kani)]
-pub fn kf_active(id: &str) -> bool {
-    // string comparison on short constant strings; folded by symex
-    let mut i = 0;
-    while i < crate::verif_gen::KF_ACTIVE.len() {
-        if crate::verif_gen::KF_ACTIVE[i].len() == id.len()
-            && crate::verif_gen::KF_ACTIVE[i].as_bytes() == id.as_bytes()
-        {
-            return true;
-        }
-        i += 1;
-    }
-    false
-}
+/// known-finding switch: `$kf` is a generated constant crate::verif_gen::KF_<id> (true while the
+/// finding is listed as open in known_findings.json).  VERIF_KF_OFF=1 (native only) disables every
+/// exclusion; it is used to confirm that a listed finding still fails.
 #[cfg(not(kani))]
-pub use native::kf_active;
+pub fn kf_on(listed: bool) -> bool {
+    listed && std::env::var("VERIF_KF_OFF").is_err()
+}
+#[cfg(kani)]
+pub fn kf_on(listed: bool) -> bool {
+    listed
+}
 
 pub trait FromWit {
     fn from_wit(v: i128) -> Self;
@@ -205,8 +192,8 @@ macro_rules! vassert {
 /// is listed in known_findings.json) the obligation is not asserted.
 #[macro_export]
 macro_rules! vassert_kf {
-    ($label:expr, $c:expr, $kf:expr, $region:expr) => {
-        if !($crate::verif_rt::kf_active($kf) && ($region)) {
+    ($label:expr, $c:expr, $kf:ident, $region:expr) => {
+        if !($crate::verif_rt::kf_on($crate::verif_gen::$kf) && ($region)) {
             $crate::vassert!($label, $c);
         }
     };
